@@ -407,6 +407,10 @@ func prExec(input sx.S) (obs sx.S) {
 		}
 	}()
 	l := sx.List(input)
+	// object constants are printed in key order, as ggqlgen does (otherwise Go's map order, which
+	// differs from one print to the next)
+	ggql.Sort = true
+	defer func() { ggql.Sort = false }()
 	root := ggql.NewRoot(nil)
 	for _, d := range sx.List(l[3])[1:] {
 		dl := sx.List(d)
